@@ -175,6 +175,22 @@ def check(ctx):
 
 
 def replay(ctx, path):
+    """re-measure the construct named in the replay file on the current tree: exit 0 iff its growth is linear now"""
     obj = json.load(open(path))
-    print(json.dumps({k: obj.get(k) for k in ("kind", "construct", "delivery", "k", "basic_blocks", "growth_last_doubling")}, indent=1))
-    return 1
+    name, mode = obj.get("construct"), ("w" if obj.get("delivery", "whole") == "whole" else "b")
+    P = patterns()
+    if name not in P:
+        print(json.dumps(obj, indent=1)[:2000])
+        return 1
+    exe = vf.build_exe(ctx, "cost_driver", os.path.join(vf.HARNESS, "cost_driver.c"), "cov", extra_flags=("-fsanitize-coverage=trace-pc",))
+    ks = obj.get("k") or [150, 300, 600]
+    build, direction, cls = P[name]
+    cases = []
+    for k in ks:
+        rq, rs = build(k)
+        cases.append("cost\t%s\t%s\t%s" % (mode, vf.hexs(rq), vf.hexs(rs)))
+    lines, rc, err = vf.run_driver(ctx, exe, cases, "replay")
+    w = [parse(l)["res" if direction == "res" else "req"] for l in lines if "=" in l]
+    ratio = w[-1] / max(1, w[-2]) if len(w) >= 2 else 0
+    print("construct %s (%s): k=%s basic blocks=%s growth of the last doubling x%.2f (recorded: x%.2f)" % (name, mode, ks, w, ratio, obj.get("growth_last_doubling") or 0))
+    return 0 if ratio <= 2.5 else 1
